@@ -101,6 +101,10 @@ def check(ctx):
     ctx.ob("SHAPE.masked-scalar", sq, "_sqrt returns the 0-d constant np.ma.masked only for a 0-d, fully masked input", ok, "" if ok else "a fully masked block with dimensions is replaced by the 0-d constant: the block loses its shape (wrong result shape or IndexError when blocks are assembled)")
     ok = any(unparse(r.value) == "np.sqrt(a)" for r in returns(sq))
     ctx.ob("SHAPE.masked-scalar.else", sq, "everything else goes through np.sqrt(a)", ok)
+    # ---------------- _wrap_masked aligns `value` with `a` from the trailing axis: both index tuples are reversed
+    wm = mod.func("_wrap_masked")
+    ok = bool(find("ainds = tuple(range(a.ndim))[::-1]", wm)) and bool(find("vinds = tuple(range(value.ndim))[::-1]", wm)) and bool(find("oinds = max(ainds, vinds, key=len)", wm))
+    ctx.ob("SIB.wrap-masked.indices", wm, "ainds and vinds are both reversed ranges (NumPy broadcasting aligns trailing axes)", ok, "" if ok else "value's axes are bound to the wrong axes of `a` when value has 2+ dimensions")
 
 
 VARIANTS = [
